@@ -60,8 +60,17 @@ Definition tOf := RTT_Keyword KK_Of.
 Definition tColon := RTT_Op OK_Colon.
 Definition tOn := RTT_IdentifierOrKeyword KK_On.
 (* the final type of a token: the parser re-types contextual keywords in keyword position *)
+Definition tVar := RTT_Keyword (KK_Var DK_Other).
+Definition tConst := RTT_Keyword (KK_Const DK_Other).
+Definition tEq := RTT_Op (OK_Equal EK_Comp).
 Definition retype (t : RawTokenType) : RawTokenType :=
-  match t with RTT_IdentifierOrKeyword KK_On => RTT_Keyword KK_On | _ => t end.
+  match t with
+  | RTT_IdentifierOrKeyword KK_On => RTT_Keyword KK_On
+  | RTT_Keyword (KK_Var DK_Other) => RTT_Keyword (KK_Var DK_Section)       (* the keyword of a var section *)
+  | RTT_Keyword (KK_Const DK_Other) => RTT_Keyword (KK_Const DK_Section)
+  | RTT_Op (OK_Equal EK_Comp) => RTT_Op (OK_Equal EK_Decl)                 (* the `=` of a constant declaration *)
+  | _ => t
+  end.
 
 Fixpoint render_stmt (c : stmt) : list RawTokenType :=
   match c with
@@ -273,3 +282,37 @@ with spans_handlers (k : nat) (h : handlers) : list (nat * nat * nat) :=
 Definition body_spans (ss : stmts) : list (nat * nat * nat) := spans 1 ss.
 Definition in_spans (sp : list (nat * nat * nat)) (f : nat) : bool :=
   existsb (fun x => let '(_, a, b) := x in (a <=? f) && (f <? b)) sp.
+
+(* ------------------------------------------------------------------ *)
+(* declaration sections in front of the main block:
+     unit  ::= decl* `begin` stmts `end` `.` Eof
+     decl  ::= `var` (Identifier `:` Identifier `;`)*  |  `const` (Identifier `=` Identifier `;`)*
+   every member makes one line of type Declaration, one level deeper than the line of the section keyword *)
+Inductive decl : Set := DVar (n : nat) | DConst (n : nat).
+Fixpoint render_members (m : list RawTokenType) (n : nat) : list RawTokenType :=
+  match n with O => [] | S n' => m ++ render_members m n' end.
+Definition render_decl (dc : decl) : list RawTokenType :=
+  match dc with
+  | DVar n => tVar :: render_members [tI; tColon; tI; tSemi] n
+  | DConst n => tConst :: render_members [tI; tEq; tI; tSemi] n
+  end.
+Fixpoint render_decls (ds : list decl) : list RawTokenType :=
+  match ds with [] => [] | dc :: r => render_decl dc ++ render_decls r end.
+Definition render_unit (ds : list decl) (ss : stmts) : list RawTokenType := render_decls ds ++ render_prog ss.
+Fixpoint member_lines (k n : nat) : list lline :=
+  match n with O => [] | S n' => mkLine LLT_Declaration 1%N None [k; k + 1; k + 2; k + 3] :: member_lines (k + 4) n' end.
+Definition decl_n (dc : decl) : nat := match dc with DVar n | DConst n => n end.
+Fixpoint decl_lines (k : nat) (ds : list decl) : list lline :=
+  match ds with
+  | [] => []
+  | dc :: r => mkLine LLT_Unknown 0%N None [k] :: member_lines (k + 1) (decl_n dc) ++ decl_lines (k + 1 + 4 * decl_n dc) r
+  end.
+(* the main block from token K on, its first line having index LI *)
+Definition main_lines (K LI : nat) (ss : stmts) : list lline :=
+  let lb := pexpected None 1 (K + 1) (LI + 1) ss in
+  let e := K + 1 + length (render ss) in
+  mkLine LLT_Unknown 0%N None [K] :: lb
+  ++ [mkLine LLT_Unknown 0%N None [e; e + 1]; mkLine LLT_Eof 0%N None [e + 2]].
+Definition pexpected_unit (ds : list decl) (ss : stmts) : list lline :=
+  let dl := decl_lines 0 ds in dl ++ main_lines (length (render_decls ds)) (length dl) ss.
+Definition expected_unit (ds : list decl) (ss : stmts) : list lline := finalize (pexpected_unit ds ss).
